@@ -129,8 +129,9 @@ PROPS = {
             "numpy contracts used: asarray/array of a sequence, comparison with a scalar, boolean-mask indexing (selected elements in order; same length iff all selected), astype(uint8) = value mod 256, fancy indexing; validated against numpy on every run",
             "an enumeration has at most 256 members (uint8 index type)",
         ],
-        "not_decided": ["encoding by member name (_str_to_index: isin / argsort / searchsorted on string arrays) is not under contract",
-                        "EnumType.__new__ (table construction by the enum metaclass) is modelled, not verified"],
+        "not_decided": ["EnumType.__new__ is verified on four concrete declarations (with and without aliases) against an ASSUMED contract of the standard library's enum class creation; "
+                        "EnumType.__eq__ / __hash__ (equality of enumerations by class name) only through the bounded stand-in on declarations: the verifier compares classes by identity, "
+                        "so 'another enumeration' in the proved contracts is one with another class name"],
     },
     "C01": {
         "theories": ["engine model: callees of the function under test enter through recording call-site contracts; postconditions speak about the call sequence, the stack, the trace tree and what was stored", "storage view stored(period)"],
